@@ -3,6 +3,7 @@ package c07
 import (
 	"errors"
 	"fmt"
+	"io"
 	"io/fs"
 	"os"
 	"regexp"
@@ -25,6 +26,97 @@ type parserCfg struct {
 	DefTTL    uint32
 	Allowed   bool // SetIncludeAllowed
 	UseFS     bool // SetIncludeFS(spy); false = nil FS. (Allowed && !UseFS is never generated: it would reach os.Open)
+
+	// Fault (optional): reading FaultFile fails after FaultAt octets with an error of FaultKind.
+	FaultFile  string `json:",omitempty"`
+	FaultAt    int    `json:",omitempty"`
+	FaultKind  int    `json:",omitempty"`
+	ByteReader bool   `json:",omitempty"` // the faulty top-level reader implements io.ByteReader
+}
+
+// ---------------------------------------------------------------------------------------------
+// read faults
+
+var errSentinel = errors.New("harness: injected read failure")
+
+type timeoutErr struct{}
+
+func (timeoutErr) Error() string   { return "harness: i/o timeout" }
+func (timeoutErr) Timeout() bool   { return true }
+func (timeoutErr) Temporary() bool { return true }
+
+var faultKindNames = []string{"sentinel", "unexpected-eof", "wraps-eof", "wraps-unexpected-eof", "path-error", "timeout", "wraps-eof-deep"}
+
+// faultErr is the error a faulty reader reports.
+func faultErr(kind int) error {
+	switch kind {
+	case 1:
+		return io.ErrUnexpectedEOF
+	case 2:
+		return fmt.Errorf("connection lost: %w", io.EOF)
+	case 3:
+		return fmt.Errorf("short read: %w", io.ErrUnexpectedEOF)
+	case 4:
+		return &fs.PathError{Op: "read", Path: "zone", Err: errors.New("input/output error")}
+	case 5:
+		return timeoutErr{}
+	case 6:
+		return fmt.Errorf("outer: %w", fmt.Errorf("inner: %w", io.EOF))
+	}
+	return errSentinel
+}
+
+// faultReader delivers data[:at] and then fails.
+type faultReader struct {
+	data []byte
+	at   int
+	pos  int
+	err  error
+}
+
+func (r *faultReader) Read(p []byte) (int, error) {
+	if r.pos >= r.at {
+		return 0, r.err
+	}
+	n := copy(p, r.data[r.pos:r.at])
+	r.pos += n
+	return n, nil
+}
+
+type faultByteReader struct{ faultReader }
+
+func (r *faultByteReader) ReadByte() (byte, error) {
+	if r.pos >= r.at {
+		return 0, r.err
+	}
+	b := r.data[r.pos]
+	r.pos++
+	return b, nil
+}
+
+// faultFile is an fs.File whose Read fails.
+type faultFile struct {
+	faultReader
+	name string
+}
+
+func (f *faultFile) Stat() (fs.FileInfo, error) { return nil, errors.New("stat not supported") }
+func (f *faultFile) Close() error               { return nil }
+
+// faultFS serves one file through a faultFile, the rest from inner.
+type faultFS struct {
+	inner fs.FS
+	file  string
+	data  []byte
+	at    int
+	err   error
+}
+
+func (f *faultFS) Open(name string) (fs.File, error) {
+	if name == f.file {
+		return &faultFile{faultReader: faultReader{data: f.data, at: f.at, err: f.err}, name: name}, nil
+	}
+	return f.inner.Open(name)
 }
 
 // spyFS counts Open calls.
@@ -150,7 +242,16 @@ func runParser(files map[string]string, cfg parserCfg, perRecord func(dns.RR)) (
 			m[name] = &fstest.MapFile{Data: []byte(txt)}
 		}
 	}
-	spy := &spyFS{inner: m}
+	var inner fs.FS = m
+	var injected error
+	if cfg.FaultFile != "" {
+		injected = faultErr(cfg.FaultKind)
+		if cfg.FaultFile != cfg.File {
+			d := []byte(files[cfg.FaultFile])
+			inner = &faultFS{inner: m, file: cfg.FaultFile, data: d, at: min(max(cfg.FaultAt, 0), len(d)), err: injected}
+		}
+	}
+	spy := &spyFS{inner: inner}
 	maxOpens := openBound(files)
 	spy.limit = maxOpens + 1
 
@@ -173,7 +274,16 @@ func runParser(files map[string]string, cfg parserCfg, perRecord func(dns.RR)) (
 		start := time.Now()
 		var ms1, ms2 runtime.MemStats
 		runtime.ReadMemStats(&ms1)
-		zp := dns.NewZoneParser(strings.NewReader(top), cfg.Origin, cfg.File)
+		var rd io.Reader = strings.NewReader(top)
+		if cfg.FaultFile == cfg.File && cfg.FaultFile != "" {
+			fr := faultReader{data: []byte(top), at: min(max(cfg.FaultAt, 0), len(top)), err: injected}
+			if cfg.ByteReader {
+				rd = &faultByteReader{fr}
+			} else {
+				rd = &fr
+			}
+		}
+		zp := dns.NewZoneParser(rd, cfg.Origin, cfg.File)
 		if cfg.HasDefTTL {
 			zp.SetDefaultTTL(cfg.DefTTL)
 		}
@@ -297,6 +407,10 @@ func runParser(files map[string]string, cfg parserCfg, perRecord func(dns.RR)) (
 	// shape of the error
 	if out.Err != nil {
 		var pe *dns.ParseError
+		if injected != nil && (out.Err == injected || errors.Is(out.Err, injected)) {
+			// the injected reader failure, reported as it is
+			return out, nil
+		}
 		if !errors.As(out.Err, &pe) {
 			// a failure of the reader itself (for instance $INCLUDE of a directory of the
 			// include FS) is reported as it is; everything else must be a *dns.ParseError
